@@ -12,6 +12,7 @@ From SV Require Import Fmt.VtfPixelExpr Fmt.VtfPixelExprProofs Fmt.VtfLayout Fmt
 From SV Require Import Gen.PixelCodecs_gen Gen.VtfLayout_gen Fmt.VtfGenProofs.
 From SV Require Import Fmt.VtfFrameSM Fmt.VtfFrameSMProofs Gen.VtfFrameSM_gen.
 From SV Require Import Bin.Struct Fmt.VtfContainer Fmt.VtfContainerProofs Gen.VtfContainer_gen.
+From SV Require Import Fmt.VtfSides Fmt.VtfSidesProofs.
 Import ListNotations.
 
 (** ** Pixels *)
@@ -272,3 +273,41 @@ Theorem c15_masked_flags_refuted :
   /\ fl_eval (fl_offset masked_flagcfg) 64 = 0%Z
   /\ ft_eval (fl_test masked_flagcfg) (fl_eval (fl_offset masked_flagcfg) 66) = false.
 Proof. exact masked_flags_refuted. Qed.
+
+(** Which sides a file contains.  [sidescfg] is read from VTF._depth_range and its callers: if save() asks for the side
+    list of the version it WRITES (and stores a blank frame for a side the object lacks), save() and read() walk the same
+    sides for every object version, written version, cubemap or volume. *)
+Theorem c15_sides_agree : forall c, sides_ok c = true ->
+  forall envmap object written depth, save_sides c envmap object written depth = read_sides c envmap written depth.
+Proof. exact sides_agree. Qed.
+(** Composition with the loop order and the block layout: every (frame, side, mipmap) that read() visits gets, at the
+    offset read() records and with the size read() computes for the level, exactly the bytes save() produced for that
+    key - for any object version and written version (save(version=...)), any number of frames, levels, sides, any
+    contents, behind any prefix (header, resources, thumbnail). *)
+Theorem c15_written_frames_read_back : forall c so ro, sides_ok c = true -> lorder_eqb so ro = true ->
+  forall envmap object written depth mips frames (content : key -> list N) (size : nat -> nat) (pre : list N),
+    (forall k, List.length (content k) = size (k_mip k)) ->
+    Forall (fun ok => slice (pre ++ written_image so mips frames (save_sides c envmap object written depth) content)
+                            (fst ok) (size (k_mip (snd ok))) = content (snd ok))
+           (read_table ro mips frames (read_sides c envmap written depth) size (List.length pre)).
+Proof. exact written_frames_read_back. Qed.
+Theorem c15_good_order_covers : forall mips frames sides f s m, (f < frames)%nat -> In s sides -> (m < mips)%nat ->
+  In {| k_frame := f; k_side := s; k_mip := m |} (walk good_order mips frames sides key0).
+Proof. exact good_order_covers. Qed.
+Example c15_sides_ok_inhabited : sides_ok good_sidescfg = true /\ sphere_rule_ok good_sidescfg = true
+  /\ save_sides good_sidescfg true 4 5 1 = [0; 1; 2; 3; 4; 5]%nat /\ save_sides good_sidescfg true 5 4 1 = [0; 1; 2; 3; 4; 5; 6]%nat.
+Proof. exact sides_ok_inhabited. Qed.
+(** the tree before the round-3 repair (side list of the object's own version): a 7.4 cubemap with two frames written as
+    7.5 - read() is handed the sphere map of frame 0 (toy byte 60) as side 0 of frame 1 *)
+Theorem c15_object_version_sides_refuted :
+  sides_ok pinned_sidescfg = false
+  /\ nth_error (what_read_gets good_order good_order pinned_sidescfg 4 5 2) 6
+     = Some ({| k_frame := 1; k_side := 0; k_mip := 0 |}, [60%N]).
+Proof. exact object_version_sides_refuted. Qed.
+(** the shape of seeded fault c15_3 (read() walks sides outside, frames inside): side 0 of frame 1 is handed the block of
+    side 1 of frame 0 *)
+Theorem c15_face_major_read_refuted :
+  lorder_eqb good_order [VMipRev; VSide; VFrame] = false
+  /\ nth_error (what_read_gets good_order [VMipRev; VSide; VFrame] good_sidescfg 5 5 2) 1
+     = Some ({| k_frame := 1; k_side := 0; k_mip := 0 |}, [10%N]).
+Proof. exact face_major_read_refuted. Qed.
